@@ -2177,7 +2177,8 @@ impl<'a, W: Write + 'a> Serializer<'a, W> {
                         file_version: version,
                     }; //Savefile always serializes most recent version. Only savefile-abi ever writes old formats.
                     data.serialize(&mut serializer)?;
-                    compressed_writer.flush()?;
+                    let writer = compressed_writer.finish()?;
+                    writer.flush()?;
                     return Ok(());
                 }
                 #[cfg(not(feature = "bzip2"))]
